@@ -101,6 +101,13 @@ class ShimSocket:
         self.strace.add("a%d" % n)
         return n
 
+    def sendall(self, data, flags=0):
+        """what `socket.sendall` does, through the capped `send` above: a failure part-way leaves a prefix on the wire
+        (a tree that writes with `sendall` must not hang the kernel-backed runs for want of the method)"""
+        data = bytes(data)
+        while data:
+            data = data[self.send(data):]
+
     def shutdown(self, how):
         return self.real.shutdown(how)
 
